@@ -260,35 +260,50 @@ def run(rep):
         else:
             rep.ok("T4-coverage", "morph_impl visits every structuring element entry; zero entries are skipped with continue", len(kloops))
         # the entry read as kernel.at(ix, iy) (x first, see kernel_2d::at) is the one whose indices give the pixel offset: ix in the column offset, iy in the row offset
+        # (canonical form: $0 source, $1 destination, $2 structuring element; #0 view row, #1 view column, #2/#3 the element loops)
         rep.count("obligations:T4-index")
-        ats = [c for c, _ in R.find(f["body"], lambda x: x.get("k") == "Call" and x.get("member_call") and x["callee"]["name"].endswith("::at") and R.key(x.get("obj")) == kn)]
-        asg = {R.key(a["l"]): R.key(a["r"]) for a, _ in R.find(f["body"], lambda x: x.get("k") == "Assign")}
-        colv = [v for v, e in asg.items() if "view_col" in e and v != "view_col"]
-        rowv = [v for v, e in asg.items() if "view_row" in e and v != "view_row"]
-        probs = []
-        if len(ats) != 1 or len(colv) != 1 or len(rowv) != 1:
-            rep.fail_analysis("T4-index: kernel.at / offset assignments not recognised (%d at-calls, col %s, row %s)" % (len(ats), colv, rowv))
+        g = R.canonize(f)
+        gl = [l for l in R.loops_of(g["body"]) if l.get("k") == "For"]
+        rowv = colv = None
+        if len(gl) >= 2 and R.counts_up(gl[0], "$0.height()") and R.counts_up(gl[1], "$0.width()"):
+            rowv, colv = R.for_shape(gl[0])[0], R.for_shape(gl[1])[0]
+        eff = R.effects(g["body"])
+        asg = {}
+        for k, x, _ in eff:
+            m = re.fullmatch(r"\((%\d+) = (.*)\)", k)
+            if m:
+                asg.setdefault(m.group(1), []).append(m.group(2))
+        reads = [c for c, _ in R.find(g["body"], lambda x: x.get("k") == "Call" and x.get("op") == "()" and len(x.get("args", [])) == 3 and R.key(x["args"][0]) == "$0")]
+        nb = [(R.key(c["args"][1]), R.key(c["args"][2])) for c in reads if re.fullmatch(r"%\d+", R.key(c["args"][1])) and re.fullmatch(r"%\d+", R.key(c["args"][2]))]
+        ats = [c for c, _ in R.find(g["body"], lambda x: x.get("k") == "Call" and x.get("member_call") and x["callee"]["name"].endswith("::at") and R.key(x.get("obj")) == "$2")]
+        if rowv is None or len(set(nb)) != 1 or len(ats) != 1 or any(len(asg.get(v, [])) != 1 for v in nb[0]):
+            rep.incon("T4-index", "T4:morph_impl:structuring element index", {"unrecognised": "view loops %s, neighbour reads %s, at-calls %d" % ((rowv, colv), sorted(set(nb)), len(ats))})
         else:
+            cx, cy = nb[0]                      # the neighbour is read as src(cx, cy): cx is its column, cy its row
             ix, iy = R.key(ats[0]["args"][0]), R.key(ats[0]["args"][1])
-            if not (re.search(r"\b%s\b" % re.escape(ix), asg[colv[0]]) and re.search(r"\b%s\b" % re.escape(iy), asg[rowv[0]])):
+            ex, ey = asg[cx][0], asg[cy][0]
+            col_ok = re.search(r"(?<![\w%%#])%s(?!\d)" % re.escape(colv), ex) and re.search(r"(?<![\w%%#])%s(?!\d)" % re.escape(ix), ex) and "center_x" in ex
+            row_ok = re.search(r"(?<![\w%%#])%s(?!\d)" % re.escape(rowv), ey) and re.search(r"(?<![\w%%#])%s(?!\d)" % re.escape(iy), ey) and "center_y" in ey
+            if not (col_ok and row_ok):
                 rep.violation("T4-index", "T4:morph_impl:structuring element index", R.fn_where(f),
-                              {"element_read": R.key(ats[0]), "column_offset": "%s = %s" % (colv[0], asg[colv[0]]), "row_offset": "%s = %s" % (rowv[0], asg[rowv[0]]),
-                               "problem": "kernel_2d::at(x, y): the x index must be the one used for the column offset; otherwise the structuring element is applied transposed"})
+                              {"element_read": R.key(ats[0]), "neighbour column": "%s = %s" % (cx, ex), "neighbour row": "%s = %s" % (cy, ey),
+                               "problem": "kernel_2d::at(x, y): the x index must be the one used for the column offset (with center_x, from the view column), the y index for the row offset; otherwise the structuring element is applied transposed"})
             else:
-                rep.ok("T4-index", "morph_impl: at(%s,%s) with column offset from %s and row offset from %s" % (ix, iy, ix, iy), R.key(ats[0]))
+                rep.ok("T4-index", "morph_impl: at(ix,iy) with column offset from ix and row offset from iy", {"at": R.key(ats[0]), "column": ex, "row": ey})
         # destination write
-        wr = [(c, p) for c, p in R.find(f["body"], lambda x: x.get("k") in ("Assign", "Call") and (x.get("op") == "=") and R.key(x.get("l") or x["args"][0]).startswith(dvw + "("))]
-        okw = False
-        for c, p in wr:
-            tgt = R.key(c.get("l") or c["args"][0])
-            gs = R.guards(p)
-            if tgt == "%s(view_col,view_row)" % dvw and R.has_atom(gs, "<", "view_col", sv + ".width()") and R.has_atom(gs, "<", "view_row", sv + ".height()"):
-                okw = True
+        wr = [(k, x, pth) for k, x, pth in eff if k.startswith("($1(")]
         rep.count("obligations:T4-write")
-        if okw and len(wr) == 1:
+        okw = rowv is not None and len(wr) == 1 and re.fullmatch(r"\(\$1\(%s,%s\) = %%\d+\)" % (re.escape(colv), re.escape(rowv)), wr[0][0]) is not None and \
+            any(a is gl[1] for a, _, _ in wr[0][2])
+        if okw:
+            # the stored value is the running extremum: the local that the max/min assignments update
+            acc = re.fullmatch(r".* = (%\d+)\)", wr[0][0]).group(1)
+            upd = [k for k, _, _ in eff if re.fullmatch(r"\(%s = (max|min)\(.*,%s\)\)" % (re.escape(acc), re.escape(acc)), k)]
+            okw = len(upd) == 2
+        if okw:
             rep.ok("T4-write", "morph_impl writes dst(view_col,view_row) once per position", len(wr))
         else:
-            rep.violation("T4-write", "T4:morph_impl:destination write", R.fn_where(f), {"writes": [R.key(c.get("l") or c["args"][0]) for c, _ in wr]})
+            rep.violation("T4-write", "T4:morph_impl:destination write", R.fn_where(f), {"writes": [k for k, _, _ in wr]})
     rep.floor("morph_impl", 1)
     # ---------------------------------------------------------------- T5 compositions
     rep.rule("T5 documented compositions: opening = erode;dilate, closing = dilate;erode, gradient = dilate - erode, top_hat = src - opening, "
